@@ -9,10 +9,10 @@ import (
 	"cosmossdk.io/math"
 	abci "github.com/cometbft/cometbft/abci/types"
 	sdk "github.com/cosmos/cosmos-sdk/types"
+	authtypes "github.com/cosmos/cosmos-sdk/x/auth/types"
 	minttypes "github.com/cosmos/cosmos-sdk/x/mint/types"
 	stakingkeeper "github.com/cosmos/cosmos-sdk/x/staking/keeper"
 	stakingtypes "github.com/cosmos/cosmos-sdk/x/staking/types"
-	authtypes "github.com/cosmos/cosmos-sdk/x/auth/types"
 
 	"github.com/terra-money/alliance/x/alliance"
 	"github.com/terra-money/alliance/x/alliance/keeper"
@@ -36,30 +36,30 @@ type Op struct {
 
 // Op kinds.
 const (
-	KDelegate      = "delegate"
-	KUndelegate    = "undelegate"
-	KUndelegateAll = "undelegate_all" // amount = reported balance (+Args["plus"])
-	KRedelegate    = "redelegate"
-	KRedelegateAll = "redelegate_all"
-	KClaim         = "claim"
-	KSlash         = "slash"   // module-only: alliance hook directly; full pipeline: StakingKeeper.Slash
-	KBlock         = "block"   // EndBlocker, header advance (BeginBlock in full pipeline)
-	KReward        = "reward"  // coins into the fee collector and real AllocateTokens
-	KGift          = "gift"    // unsolicited bank send to the custody account
-	KGovCreate     = "gov_create"
-	KGovUpdate     = "gov_update"
-	KGovDelete     = "gov_delete"
-	KGovParams     = "gov_params"
-	KNDelegate     = "n_delegate"
-	KNUndelegate   = "n_undelegate"
+	KDelegate       = "delegate"
+	KUndelegate     = "undelegate"
+	KUndelegateAll  = "undelegate_all" // amount = reported balance (+Args["plus"])
+	KRedelegate     = "redelegate"
+	KRedelegateAll  = "redelegate_all"
+	KClaim          = "claim"
+	KSlash          = "slash"  // module-only: alliance hook directly; full pipeline: StakingKeeper.Slash
+	KBlock          = "block"  // EndBlocker, header advance (BeginBlock in full pipeline)
+	KReward         = "reward" // coins into the fee collector and real AllocateTokens
+	KGift           = "gift"   // unsolicited bank send to the custody account
+	KGovCreate      = "gov_create"
+	KGovUpdate      = "gov_update"
+	KGovDelete      = "gov_delete"
+	KGovParams      = "gov_params"
+	KNDelegate      = "n_delegate"
+	KNUndelegate    = "n_undelegate"
 	KNUndelegateAll = "n_undelegate_all"
 	KNRedelegateAll = "n_redelegate_all"
-	KJail          = "jail"
-	KUnjail        = "unjail"
-	KMaxVals       = "max_validators"
-	KUnbondingTime = "unbonding_time"
-	KSettle        = "settle" // ClaimValidatorRewards for one validator (what any user tx on it triggers)
-	KReimport      = "reimport" // export the alliance genesis, wipe the alliance store, import it again (chain restart from an export)
+	KJail           = "jail"
+	KUnjail         = "unjail"
+	KMaxVals        = "max_validators"
+	KUnbondingTime  = "unbonding_time"
+	KSettle         = "settle"   // ClaimValidatorRewards for one validator (what any user tx on it triggers)
+	KReimport       = "reimport" // export the alliance genesis, wipe the alliance store, import it again (chain restart from an export)
 )
 
 func (o Op) String() string {
